@@ -448,6 +448,17 @@ func normalizespaceFunc(arg1 query) func(query, iterator) interface{} {
 	}
 }
 
+// roundHalfUp rounds to the nearest integer and takes a tie towards positive
+// infinity, as the XPath round() function does: round(-2.5) is -2, where
+// math.Round gives -3.
+func roundHalfUp(f float64) float64 {
+	r := math.Floor(f)
+	if f-r >= 0.5 {
+		r++
+	}
+	return r
+}
+
 // substringFunc is XPath functions substring function returns a part of a given string.
 func substringFunc(arg1, arg2, arg3 query) func(query, iterator) interface{} {
 	return func(_ query, t iterator) interface{} {
@@ -472,14 +483,14 @@ func substringFunc(arg1, arg2, arg3 query) func(query, iterator) interface{} {
 		// The characters returned are those at the 1-based positions p with
 		// round(start) <= p < round(start) + round(length), and all of them
 		// from round(start) on when length is omitted.
-		start = math.Round(start)
+		start = roundHalfUp(start)
 		last := float64(len(m)) + 1
 		end := last
 		if arg3 != nil {
 			if length, ok = functionArgs(arg3).Evaluate(t).(float64); !ok {
 				panic(errors.New("substring() function second argument type must be number"))
 			}
-			end = start + math.Round(length)
+			end = start + roundHalfUp(length)
 		}
 		if start < 1 {
 			start = 1
